@@ -22,7 +22,10 @@ def _lib():
 #  ord       : declared order, no generator flag (NAF, reduced mod 2*order)
 #  noord     : no declared order (NAF on the raw integer)
 #  leg-ord / leg-noord : legacy affine Point with / without declared order
-PATHS = ["gen-fresh", "gen-built", "ord", "noord", "leg-ord", "leg-noord"]
+#  gen-built-neg : unary minus applied to (-P) AFTER its table was built: the
+#                  result denotes P and must not inherit state of -P
+PATHS = ["gen-fresh", "gen-built", "gen-built-neg", "ord", "noord", "leg-ord",
+         "leg-noord"]
 
 
 def make(ec, curve, P, p, path, z, order):
@@ -36,6 +39,10 @@ def make(ec, curve, P, p, path, z, order):
         o = ec.PointJacobi(curve, X, Y, z, order, generator=True)
         o * 2
         return o
+    if path == "gen-built-neg":
+        o = ec.PointJacobi(curve, X, (-Y) % p, z, order, generator=True)
+        o * 2                    # table of -P exists now
+        return -o                # denotes P
     if path == "ord":
         return ec.PointJacobi(curve, X, Y, z, order)
     if path == "noord":
@@ -122,6 +129,13 @@ def muladd_case(ec, p, a, b, P, pflag, Q, qkind, ka, kb, order, zp, zq):
             Qo = ec.INFINITY
         elif qkind == "leg":
             Qo = ec.Point(curve, Q[0], Q[1], order)
+        elif qkind == "genneg":
+            # -( generator-flagged -Q whose table has been built )
+            t = ec.PointJacobi(curve, Q[0] * zq * zq % p,
+                               (-Q[1]) * zq ** 3 % p, zq, order,
+                               generator=True)
+            t * 2
+            Qo = -t
         else:
             Qo = ec.PointJacobi(curve, Q[0] * zq * zq % p, Q[1] * zq ** 3 % p,
                                 zq, order, generator=(qkind == "gen"))
@@ -161,9 +175,9 @@ def shard_muladd(arg):
                 for pflag in (False, True):
                     if pflag and order is None:
                         continue
-                    for qkind in (("jac", "gen", "leg") if Q is not None
-                                  else ("inf",)):
-                        if qkind == "gen" and order is None:
+                    for qkind in (("jac", "gen", "leg", "genneg")
+                                  if Q is not None else ("inf",)):
+                        if qkind in ("gen", "genneg") and order is None:
                             continue
                         for (zp, zq) in ((1, 1), (2, 3)):
                             if qkind in ("leg", "inf") and zq != 1 and zp == 1:
@@ -309,9 +323,9 @@ def main(ctx):
                 raise common.OracleBroken(err)
         for ch in common.chunks(cs, 3 * ctx.jobs):
             jobs.append((shard_mul, "mul-allcurves-F%d" % p, (ch, PATHS, [1, 2])))
-    toys = [t for t in catalog.all_toys() if t.p <= ctx.pick(61, 131)]
+    toys = [t for t in catalog.all_toys() if t.p <= ctx.pick(37, 131)]
     extra = ctx.rotate([t for t in catalog.all_toys() if 131 < t.p < 400],
-                       ctx.pick(2, 8))
+                       ctx.pick(1, 8))
     for t in toys + extra:
         jobs.append((shard_mul, "mul-toy", ([t.key()], PATHS, [1, 3])))
     # mul_add: all curves over F_7 (thorough: F_11 as well), P = every
@@ -323,7 +337,7 @@ def main(ctx):
             for P in pts[::3]:
                 ma_items.append((pp, a, b, P))
     for t in catalog.all_toys():
-        if t.p <= ctx.pick(23, 43):
+        if t.p <= ctx.pick(17, 43):
             ma_items.append((t.p, t.a, t.b, t.G))
     for ch in common.chunks(ma_items, 6 * ctx.jobs):
         jobs.append((shard_muladd, "mul_add", (ch, [40, -17])))
